@@ -160,28 +160,35 @@ Section Loop.
   | Raised (s : sim)      (* the scheduler raised; s is the simulator state left behind *)
   | OutOfFuel (s : sim).
 
-  (* run(): `guard resolve queue_empty` is the loop test; crash = Some k makes the (k+1)-th
-     scheduler call of this run() raise. *)
-  Fixpoint run_gen (guard : bool -> bool -> bool) (fuel : nat) (crash : option nat) (s : sim) : outcome :=
+  (* run(): `guard resolve queue_empty` is the loop test; `pre` is what the `if` block does before
+     `new_schedule = self.scheduler.run()` (now: `self._resolve = True`); crash = Some k makes the
+     (k+1)-th scheduler call of this run() raise. *)
+  Fixpoint run_gen (guard : bool -> bool -> bool) (pre : sim -> sim) (fuel : nat) (crash : option nat) (s : sim)
+    : outcome :=
     match fuel with
     | O => OutOfFuel s
     | S f =>
         if guard (s_resolve s) (q_empty QI (s_queue s)) then
           let s1 := pop_and_process s in
           if recompute_due s1 then
+            let s1r := pre s1 in
             match crash with
-            | Some O => Raised s1
-            | Some (S k) => run_gen guard f (Some k) (advance (after_sched (sched s1) s1))
-            | None => run_gen guard f None (advance (after_sched (sched s1) s1))
+            | Some O => Raised s1r
+            | Some (S k) => run_gen guard pre f (Some k) (advance (after_sched (sched s1r) s1r))
+            | None => run_gen guard pre f None (advance (after_sched (sched s1r) s1r))
             end
-          else run_gen guard f crash (advance s1)
+          else run_gen guard pre f crash (advance s1)
         else Done s
     end.
 
-  (* the loop test of the current code (translated) and of the code before commit e3d86c7 *)
-  Definition run := run_gen Run_guard.
+  (* the current code: translated loop test; a resolve is kept pending across the scheduler call *)
+  Definition pending_resolve (s : sim) : sim := with_resolve true s.
+  Definition run := run_gen Run_guard pending_resolve.
+  (* the loop test of the code before commit e3d86c7 *)
   Definition old_guard (resolve queue_empty : bool) : bool := negb queue_empty.
-  Definition run_old := run_gen old_guard.
+  Definition run_old := run_gen old_guard pending_resolve.
+  (* the code before `self._resolve = True` was put in front of the scheduler call *)
+  Definition run_nopre := run_gen Run_guard (fun s => s).
 
   (* run(); whenever the scheduler raises (at the calls given by ks, counted per run() call),
      call run() again *)
@@ -195,10 +202,10 @@ Section Loop.
     end.
 
   (* ---- well-formedness of pending events (hypotheses of the resume theorem) ---- *)
-  (* every pending event is of a type whose processing sets _resolve, and a session that is still
-     to be plugged in leaves strictly after the period in which it is plugged in *)
+  (* a session that is still to be plugged in leaves strictly after the period in which it is
+     plugged in *)
   Definition ev_ok (e : event) : Prop :=
-    sets_resolve (e_type e) = true /\ (pushes_unplug (e_type e) = true -> e_ts e < e_dep e).
+    pushes_unplug (e_type e) = true -> e_ts e < e_dep e.
   Definition queue_ok (s : sim) : Prop :=
     Forall (fun e => s_iter s <= e_ts e /\ ev_ok e) (q_elems QI (s_queue s)).
 
@@ -473,6 +480,7 @@ Definition init_sim_list (evs : list event) (mr : option Z) : dsim ListQ :=
 
 Definition drun := run HeapQ dstate unit d_ops (dsched HeapQ).
 Definition drun_old := run_old HeapQ dstate unit d_ops (dsched HeapQ).
+Definition drun_nopre := run_nopre HeapQ dstate unit d_ops (dsched HeapQ).
 
 (* ------------------------------------------------------------------------------------------ *)
 (* correspondence: the real Simulator against this model                                      *)
